@@ -50,6 +50,10 @@ Accepted subset (anything else raises vlib.TranslatorError, which the runner tre
     every `return`/`raise` PATH, including the negations of earlier guards that returned, and identifies the two incoming guards by
     meaning); a private helper method of the same class called as a statement with positional arguments is inlined (parameters renamed,
     `if c: ...; return` + rest read as if/else);
+  * also accepted: a local bound to a boolean expression (translated through its definition), `if c: x = a else: x = b` (read as a conditional
+    expression), `bool(x)`, the no-session-keys guard of outgoing_crypto before the try block (`return None`) or first inside it (`raise`), on_data
+    written exit-branch first (`if not <own-circuit guard>: ...; return` + the own-circuit code); negation is pushed through conditional
+    expressions and `or` when rendering;
   * statement shapes: the functions must keep their overall shape (guard-if with `return`/`raise`; the if/elif chain over the three
     tables; `direction = A if <ctype test> else B`; `self.encrypt_cell(cell, <dir>, <hops>)` / `self.decrypt_cell(...)` calls with
     positional arguments; logging calls, statistics (`bytes_up`, `beat_heart`) and f-string messages are ignored).
@@ -80,7 +84,13 @@ def fail(where, msg):
 # ---------------------------------------------------------------------------------------------------------------------
 # boolean terms are built as small trees and rendered in a canonical form: and/or flattened and sorted, double negation removed
 def t_not(t):
-    return t[1] if t[0] == "not" else ("not", t)
+    if t[0] == "not":
+        return t[1]
+    if t[0] == "ite":                                   # not (a if c else b)  =  (not a) if c else (not b)
+        return ("ite", t[1], t_not(t[2]), t_not(t[3]))
+    if t[0] == "or":                                    # not (a or b)  =  not a and not b
+        return t_and([t_not(x) for x in t[1]])
+    return ("not", t)
 
 
 def t_and(ts):
@@ -172,13 +182,26 @@ class Func:
             if len(params) <= cell_param:
                 fail(self.where, "cell parameter missing")
             self.locals[params[cell_param]] = ast.Name(id="cell")
+        cond_defs = {}
+        counts: dict[str, int] = {}
+        for st in ast.walk(f):
+            if isinstance(st, ast.Assign) and len(st.targets) == 1 and isinstance(st.targets[0], ast.Name):
+                counts[st.targets[0].id] = counts.get(st.targets[0].id, 0) + 1
+            if isinstance(st, ast.If) and len(st.body) == 1 and len(st.orelse) == 1 \
+                    and all(isinstance(x, ast.Assign) and len(x.targets) == 1 and isinstance(x.targets[0], ast.Name) for x in (st.body[0], st.orelse[0])) \
+                    and st.body[0].targets[0].id == st.orelse[0].targets[0].id:
+                cond_defs[st.body[0].targets[0].id] = ast.IfExp(test=st.test, body=st.body[0].value, orelse=st.orelse[0].value)
+        for name, val in cond_defs.items():
+            if counts.get(name) == 2:
+                self.locals[name] = val          # `if c: x = a else: x = b`  is read as  x = a if c else b
+        self.multi = {n for n, k in counts.items() if k > 1 and n not in self.locals}
         for st in ast.walk(f):
             tgt = None
             if isinstance(st, ast.Assign) and len(st.targets) == 1 and isinstance(st.targets[0], ast.Name):
                 tgt, val = st.targets[0].id, st.value
             elif isinstance(st, ast.AnnAssign) and isinstance(st.target, ast.Name) and st.value is not None:
                 tgt, val = st.target.id, st.value
-            if tgt and tgt not in self.locals and tgt != "cell":
+            if tgt and tgt not in self.locals and tgt != "cell" and tgt not in self.multi:
                 self.locals[tgt] = val
         self.atoms: dict[str, tuple[str, str]] = {}
 
@@ -268,6 +291,13 @@ class Func:
             c = self.canon(n)
             if c in self.atoms:
                 return ("atom", self.atoms[c][0])
+            if isinstance(n.func, ast.Name) and n.func.id == "bool" and len(n.args) == 1 and not n.keywords:
+                return self.bt(n.args[0])           # bool(x): the truth value of x
+        if isinstance(n, ast.Name) and n.id in self.locals and not isinstance(self.locals[n.id], ast.Name):
+            d = self.locals[n.id]
+            if isinstance(d, (ast.BoolOp, ast.IfExp, ast.Compare, ast.UnaryOp)) or \
+                    (isinstance(d, ast.Call) and isinstance(d.func, ast.Name) and d.func.id == "bool"):
+                return self.bt(d)                   # a named boolean: translate its definition
         return ("atom", self.atom(n, "bool")[0])
 
     # ---- helpers for statement shapes -------------------------------------------------------------------------------------
@@ -516,11 +546,12 @@ def translate() -> tuple[str, dict]:
     if len(tries) != 1:
         fail(f.where, "exactly one try block expected")
     tb = f.inline([s for s in tries[0].body if not ignorable(s)])
-    g = f.path_guards(tb[:1])
+    before = f.path_guards([s for s in f.body if not isinstance(s, ast.Try) and not (isinstance(s, ast.If) and s.orelse)])
+    g = before + f.path_guards(tb[:1])
     if len(g) != 1:
-        fail(f.where, "the try block must start with the `raise CryptoException` guard")
+        fail(f.where, "exactly one no-session-keys guard (return None before the try block, or raise CryptoException first in it) expected")
     no_key = render(g[0])
-    rest = tb[1:]
+    rest = tb if before else tb[1:]
     if len(rest) != 1 or not isinstance(rest[0], ast.If):
         fail(f.where, "after the guard one if/elif chain over the tables is expected")
     out_order, out = [], {}
@@ -703,7 +734,7 @@ def translate() -> tuple[str, dict]:
     # ---- on_data -----------------------------------------------------------------------------------------------------
     f = Func(COMMUNITY, "TunnelCommunity", "on_data", cell_param=None)
     circ = "self.circuits.get(self.serializer.unpack_serializable(DataPayload, data, offset=23)[0].circuit_id)"
-    top = [s for s in f.body if isinstance(s, ast.If) and s.orelse]
+    top = [s for s in normalize_returns(f.body) if isinstance(s, ast.If) and s.orelse]
     if len(top) != 1:
         fail(f.where, "one if/else (own circuit / exit) expected")
     # vocabulary of the own-circuit guard: resolve `circuit`, `origin`, `sock_addr` textually
@@ -719,7 +750,11 @@ def translate() -> tuple[str, dict]:
                f"{cname}.ctype": ("ct", "ctype"), "DataChecker.could_be_ipv8(data)": ("isIpv8", "bool"),
                "self._prefix == data[:22]": ("ownPrefix", "bool"), "data[:22] == self._prefix": ("ownPrefix", "bool"),
                "data[22]": ("msgId", "nat")}
-    own_guard = f.bexpr(top[0].test)
+    gt = f.bt(top[0].test)
+    own_body = top[0].body
+    if gt[0] == "not":                      # written exit-branch first: `if not <own circuit>: ... return` + the own-circuit code
+        gt, own_body = gt[1], top[0].orelse
+    own_guard = render(gt)
     e2e_def = next((v for k, v in f.locals.items() if ast.unparse(v).startswith(f"{cname}.ctype in")), None)
     if e2e_def is None or not isinstance(e2e_def, ast.Compare) or not isinstance(e2e_def.comparators[0], (ast.List, ast.Tuple)):
         fail(f.where, "`e2e_data = circuit.ctype in [...]` expected")
@@ -731,7 +766,7 @@ def translate() -> tuple[str, dict]:
     ename = next(k for k, v in f.locals.items() if v is e2e_def)
     f.atoms[ename] = ("e2e", "bool")
     del f.locals[ename]
-    div = [s for s in top[0].body if isinstance(s, ast.If)]
+    div = [s for s in own_body if isinstance(s, ast.If)]
     if len(div) != 1:
         fail(f.where, "own-circuit branch: one `if could_be_ipv8 and not e2e` expected")
     divert = f.bexpr(div[0].test)
